@@ -10,15 +10,17 @@ import YaegiVerif.Generated.C15
            | (type NAME (field …))
      IDS   = ((name 1|0) …)          1 = denotes the package-level object, 0 = a local / field key of that name
      MAIN  = (label) | ()            AFTER = (label …)  what main's own calls log after that
-   answer: class=… deps=… yorder=… ylog=… ilog=… regs=… syms=… gdeps=… gorder=… glog=…
-     deps/gdeps  i:d,d;i:d…        (collected dependencies per specification / per unit)
+   answer: class=… deps=… yorder=… ylog=… ilog=… regs=… syms=… gdeps=… gorder=… glog=… slog=…
+     deps/gdeps  i:d,d;i:d…        (collected dependencies per specification of the list getVars builds / per unit)
+     slog        the specification's rules with one node per initialisation step (runGoS)
      yorder/gorder  i,i,i | loop   ylog/ilog/glog  label,label,…[,!error] | -
      regs  key@pos,…[,main]        the init nodes of the package given as one file (pos = ordinal among the function declarations)
      syms  name,…                  sorted: the function symbols gta declares
    `ylog` = Eval of one file (CompileAST + Execute), `ilog` = importSrc of a directory.
    prog DIR (SUB…) (mainimport…) FILES MAIN AFTER     SUB = (path (import…) FILES)
    answer: class=(first package, imported ones first, that is not in-domain) yseq= ylog= gseq= glog=   (seq = packages in initialisation order)
-   Everything yaegi-side is computed with the facts regenerated from the source (Generated.C15). -/
+   Everything yaegi-side is computed with the facts regenerated from the source (Generated.C15:
+   execFacts, initFacts, depFacts). -/
 namespace YaegiVerif.Driver.C15
 open YaegiVerif YaegiVerif.VarInit YaegiVerif.Spec.InitOrder
 
@@ -124,11 +126,12 @@ def handle (args : List Sexp) : String :=
      | some s =>
        let f := Generated.C15.execFacts
        let i := Generated.C15.initFacts
+       let d := Generated.C15.depFacts
        let p := s.toPkg i
-       let gy := collectDepsY p
+       let gy := collectDepsY d p
        let gg := goDeps (toPkgGo s)
-       let tail := s!"ylog={showTrace (runSrcY f i s)} ilog={showTrace (runSrcImportY f i s)} regs={showRegs f i s} syms={showSeq (sortPaths (declaredFuncs i s.decls).eraseDups)} gdeps={showDeps gg} gorder={showRes (orderGo gg)} glog={showTrace (runSrcGo s)}"
-       if gtaRejects p then
+       let tail := s!"ylog={showTrace (runSrcY f i d s)} ilog={showTrace (runSrcImportY f i d s)} regs={showRegs f i s} syms={showSeq (sortPaths (declaredFuncs i s.decls).eraseDups)} gdeps={showDeps gg} gorder={showRes (orderGo gg)} glog={showTrace (runSrcGo s)} slog={showTrace (runSrcGoS s)}"
+       if gtaRejects d p then
          s!"class={classifySrc s} deps=err yorder=err {tail}"
        else
          s!"class={classifySrc s} deps={showDeps gy} yorder={showRes (orderY gy)} {tail}"
@@ -138,9 +141,10 @@ def handle (args : List Sexp) : String :=
      | some d, some ss, some mi, some s =>
        let f := Generated.C15.execFacts
        let i := Generated.C15.initFacts
+       let dp := Generated.C15.depFacts
        let prY : Prog := ⟨ss.map (fun x => ⟨x.1, x.2.1, x.2.2.toPkg i⟩), mi, s.toPkg i, d⟩
        let prG : Prog := ⟨ss.map (fun x => ⟨x.1, x.2.1, toPkgGo x.2.2⟩), mi, toPkgGo s, d⟩
-       let y := progY f prY
+       let y := progY f dp prY
        let g := progGo prG
        let cls := ((ss.map (fun x => classifySrc x.2.2)) ++ [classifySrc s]).filter (· != "in-domain")
        s!"class={cls.head?.getD "in-domain"} yseq={showSeq y.seq} ylog={showTrace ((Trace.mk y.events y.err).andThen s.after)} gseq={showSeq g.1} glog={showTrace (g.2.andThen s.after)}"
